@@ -211,6 +211,78 @@ theorem Undoable.single {fs : FS} {m m' : Mem} {s : Status}
   refine ⟨M', ?_, he⟩
   simp only [undoAll, hr]
 
+/-! ### undoing one `Status`, with what the backup code needs to know -/
+
+/-- `s` took the memory from (an extension of) `m` to `m'`: from any extension of `m'`, `rollbackOne`
+succeeds, leaves an extension of `m`, returns the restored entry of `s.target`, leaves an entry at `s.final`,
+and touches no other entry.  Also the shape of `s`: a rename records the new name as `final`. -/
+def StepU (fs : FS) (m : Mem) (s : Status) (m' : Mem) : Prop :=
+  (s.fp.rename = true → s.fp.new = some s.final) ∧ (s.fp.rename = false → s.final = s.target) ∧
+  ∀ M, Ext fs m' M → ∃ M' x, rollbackOne M s = .ok (M', x) ∧ Ext fs m M' ∧ M'.get s.target = some x ∧
+    (∃ y, M'.get s.final = some y) ∧
+    (∀ n, components n ≠ components s.target → components n ≠ components s.final → M'.get n = M.get n)
+
+theorem StepU.ext_right {fs : FS} {m m' m'' : Mem} {s : Status} (h : StepU fs m s m') (he : Ext fs m' m'') :
+    StepU fs m s m'' :=
+  ⟨h.1, h.2.1, fun M hM => h.2.2 M (he.trans hM)⟩
+
+theorem StepU.ext_left {fs : FS} {m0 m m' : Mem} {s : Status} (he : Ext fs m0 m) (h : StepU fs m s m') :
+    StepU fs m0 s m' := by
+  refine ⟨h.1, h.2.1, fun M hM => ?_⟩
+  obtain ⟨M', x, h1, h2, h3⟩ := h.2.2 M hM
+  exact ⟨M', x, h1, he.trans h2, h3⟩
+
+/-- a stack of `Status` (newest first) leading from `m` to `m'`, entries loaded on the way allowed -/
+def Chain (fs : FS) : Mem → List Status → Mem → Prop
+  | m, [], m' => Ext fs m m'
+  | m, s :: L, m' => ∃ m1, Chain fs m L m1 ∧ StepU fs m1 s m'
+
+theorem Chain.ext_right {fs : FS} {m m' m'' : Mem} {L : List Status} (h : Chain fs m L m') (he : Ext fs m' m'') :
+    Chain fs m L m'' := by
+  cases L with
+  | nil => exact Ext.trans h he
+  | cons s L =>
+    obtain ⟨m1, h1, h2⟩ := h
+    exact ⟨m1, h1, h2.ext_right he⟩
+
+theorem Chain.ext_left {fs : FS} {m0 m : Mem} (he : Ext fs m0 m) : ∀ {L : List Status} {m' : Mem},
+    Chain fs m L m' → Chain fs m0 L m' := by
+  intro L
+  induction L with
+  | nil => intro m' h; exact Ext.trans he h
+  | cons s L ih =>
+    intro m' h
+    obtain ⟨m1, h1, h2⟩ := h
+    exact ⟨m1, ih h1, h2⟩
+
+theorem Chain.single {fs : FS} {m m' : Mem} {s : Status} (h : StepU fs m s m') : Chain fs m [s] m' :=
+  ⟨m, Ext.refl _ _, h⟩
+
+theorem Chain.append {fs : FS} {m m1 : Mem} {L1 : List Status} (h1 : Chain fs m L1 m1) :
+    ∀ {L2 : List Status} {m2 : Mem}, Chain fs m1 L2 m2 → Chain fs m (L2 ++ L1) m2 := by
+  intro L2
+  induction L2 with
+  | nil => intro m2 h2; exact h1.ext_right h2
+  | cons s L2 ih =>
+    intro m2 h2
+    obtain ⟨m', h3, h4⟩ := h2
+    exact ⟨m', ih h3, h4⟩
+
+theorem Chain.undoable {fs : FS} {m : Mem} : ∀ {L : List Status} {m' : Mem},
+    Chain fs m L m' → Undoable fs m L m' := by
+  intro L
+  induction L with
+  | nil => intro m' h; exact Undoable.nil h
+  | cons s L ih =>
+    intro m' h
+    obtain ⟨m1, h1, h2⟩ := h
+    have hs : Undoable fs m1 [s] m' := by
+      apply Undoable.single
+      intro M hM
+      obtain ⟨M', x, hr, he, _⟩ := h2.2.2 M hM
+      exact ⟨M', x, hr, he⟩
+    exact Undoable.append (ih h1) hs
+
 /-! ### what `rollbackOne` computes -/
 
 theorem rollbackOne_plain {M : Mem} {s : Status} {f' file : FileSt Bytes}
